@@ -148,6 +148,17 @@ pub fn check(tape: &[u32]) -> CheckResult {
     // visible cel must equal that cel's image
     let hf = [1u32, 1, 0, 2, 3][t.below(5) as usize];
     enc.bytes[14..18].copy_from_slice(&hf.to_le_bytes());
+    // a pixel aspect ratio other than 1:1 (refused today): where a reader accepts it, frames and cels must still agree
+    if t.chance(1, 10) {
+        let (a, b) = [(2u8, 1u8), (1, 2), (3, 2)][t.below(3) as usize];
+        let keep = (enc.bytes[34], enc.bytes[35]);
+        enc.bytes[34] = a;
+        enc.bytes[35] = b;
+        if AsepriteFile::read(&enc.bytes[..]).is_err() {
+            enc.bytes[34] = keep.0;
+            enc.bytes[35] = keep.1;
+        }
+    }
     let detail = || json!({"model": super::c01::summarize(&s), "input_hex": if enc.bytes.len() < 8000 { hex(&enc.bytes) } else { String::new() }});
     let f = AsepriteFile::read(&enc.bytes[..]).map_err(|e| Failure::new("load-error", format!("well-formed file failed to load: {}", e)).with(detail()))?;
     let (pairs, nontrivial) = check_file(&f).map_err(|e| e.with(detail()))?;
